@@ -362,7 +362,7 @@ func driveNumeric(args []string) error {
 			if frac > 0 {
 				s = s[:len(s)-frac] + "." + s[len(s)-frac:]
 			}
-			if r.Intn(3) == 0 {
+			if r.Intn(3) == 0 && strings.Trim(s, "0.") != "" { // never "-0": a negative zero is not a number of the domain
 				s = "-" + s
 			}
 			return s
